@@ -418,13 +418,17 @@ Definition worker_finished (c : fcfg) (s : fstate) (i : N) : fstate * list ev :=
 Definition build (s : fstate) (i : N) : fstate * N :=
   let n := assoc i (f_builds s) + 1 in (set_builds s (set_assoc i n (f_builds s)), n).
 
-(* handle_supervisor_evt for the worker of slot i: replace_worker, re-dispatch, re-route *)
+(* handle_supervisor_evt for the worker of slot i: retire (F7) or replace_worker, re-dispatch, re-route *)
 Definition worker_died (c : fcfg) (s : fstate) (i : N) : fstate * list ev :=
   match find_w (f_pool s) i with
   | None => (s, [])
   | Some w =>
-    let (s0, inc) := build s i in
     let lost := match w_cur w with Some j => [ELost (jid j)] | None => [] end in
+    (* retire_dead_draining_worker (fix F7): a draining slot with nothing queued is retired *)
+    if w_drain w && (match w_q w with [] => true | _ => false end) then
+      (set_pool (set_rs s (on_change c (f_rs s) i false)) (remove_w (f_pool s) i), lost)
+    else
+    let (s0, inc) := build s i in
     let w0 := mkW (w_id w) None (w_q w) (w_drain w) inc in
     let (w1, e) := match w_q w0 with
                    | j :: r => dispatch_job (set_q w0 r) j
